@@ -50,6 +50,7 @@ func runC07(l *core.Ledger) {
 	l.With(map[string]string{"C09-W8": "C07-E7"}, func() { c09W6(l, r) })
 	checkResponseProvenance(l, r, "C07-E2")
 	c07E8(l, r)
+	c07E9(l, r)
 	c07E3(l, r)
 	c07E4(l, r)
 	c07E5(l, r)
@@ -698,4 +699,83 @@ func c07E5(l *core.Ledger, r *rt) {
 			l.Bad("C07-E5", fnKey(f)+"/status", f.Pos(), "the stream reader delivers no message-carrying response")
 		}
 	}
+}
+
+// c07E9: the kind of error a failed write yields. gRPC's SendMsg returns io.EOF
+// when the stream has ended (the status goes to RecvMsg); handed on unchanged it
+// reaches the call as "node X: EOF" - no status code - although the connection
+// failed. The write path translates it into the unavailable-type error.
+func c07E9(l *core.Ledger, r *rt) {
+	l.Rule("C07-E9", "sendMsg does not hand on the bare io.EOF of SendMsg: on the matching edge of a test of the write's error against io.EOF it stores an error that is Unavailable by construction")
+	var fn *ssa.Function
+	var send *ssa.Call
+	for _, f := range allFuncs(l.Prog, r.pkg) {
+		if f.Signature.Recv() == nil || !isNamed(f.Signature.Recv().Type(), core.RootModule, "channel") {
+			continue
+		}
+		sx.AllInstrs(f, func(_ sx.Node, in ssa.Instruction) {
+			if c, ok := in.(*ssa.Call); ok && c.Call.IsInvoke() && c.Call.Method.Name() == "SendMsg" {
+				fn, send = f, c
+			}
+		})
+	}
+	if fn == nil {
+		l.Unknown("C07-E9", "anchor/sendMsg", token.NoPos, "no client stream write found")
+		return
+	}
+	key := fnKey(fn) + "/eof-translated"
+	isWriteErr := func(v ssa.Value) bool {
+		return sx.Any(sx.Origins(v), func(o sx.Origin) bool { return o.V == ssa.Value(send) })
+	}
+	isEOF := func(v ssa.Value) bool {
+		return sx.All(sx.Origins(v), func(o sx.Origin) bool {
+			g, ok := o.V.(*ssa.Global)
+			return ok && g.Name() == "EOF" && g.Pkg != nil && g.Pkg.Pkg.Path() == "io"
+		})
+	}
+	var eofEdges []sx.Edge
+	sx.AllInstrs(fn, func(_ sx.Node, in ssa.Instruction) {
+		ifi, ok := in.(*ssa.If)
+		if !ok {
+			return
+		}
+		v, pos := condOf(ifi)
+		t, f := sx.CondEdges(ifi)
+		if !pos {
+			t, f = f, t
+		}
+		switch x := v.(type) {
+		case *ssa.Call:
+			if calleeIs(&x.Call, "errors.Is") && len(x.Call.Args) == 2 && isWriteErr(x.Call.Args[0]) && isEOF(x.Call.Args[1]) {
+				eofEdges = append(eofEdges, t)
+			}
+		case *ssa.BinOp:
+			if x.Op == token.EQL && ((isWriteErr(x.X) && isEOF(x.Y)) || (isWriteErr(x.Y) && isEOF(x.X))) {
+				eofEdges = append(eofEdges, t)
+			} else if x.Op == token.NEQ && ((isWriteErr(x.X) && isEOF(x.Y)) || (isWriteErr(x.Y) && isEOF(x.X))) {
+				eofEdges = append(eofEdges, f)
+			}
+		}
+	})
+	ok := false
+	sx.AllInstrs(fn, func(nd sx.Node, in ssa.Instruction) {
+		st, isSt := in.(*ssa.Store)
+		if !isSt || !isErrorType(st.Val.Type()) || !edgesDominate(fn, eofEdges, nd) {
+			return
+		}
+		if sx.All(sx.Origins(st.Val), func(o sx.Origin) bool { code, known := errCodeOfOrigin(o); return known && code == 14 }) {
+			ok = true
+		}
+	})
+	// without a named result: a return on the EOF edge
+	sx.AllInstrs(fn, func(nd sx.Node, in ssa.Instruction) {
+		ret, isRet := in.(*ssa.Return)
+		if !isRet || len(ret.Results) != 1 || !edgesDominate(fn, eofEdges, nd) {
+			return
+		}
+		if sx.All(sx.Origins(ret.Results[0]), func(o sx.Origin) bool { code, known := errCodeOfOrigin(o); return known && code == 14 }) {
+			ok = true
+		}
+	})
+	l.Check(ok, "C07-E9", key, send.Pos(), "io.EOF of the write is replaced by an Unavailable error", "the write path hands the error of SendMsg on as it is: when the stream has ended gRPC returns the bare io.EOF (the status goes to RecvMsg), and the call whose write failed reports 'node X: EOF' - an error without a status code - although the connection failed; every other path reports Unavailable")
 }
